@@ -3,7 +3,7 @@
 // built by common.BuildTree) over one record stream cut into batches in many ways, with optional restarts
 // (new State read back from the state file + fresh tree), and reports the content of the state file.
 //
-// ops:  cfg thr=<n> | known u=<enc> | rec ts= dur= tot= st= m= u= i= c= int= | run cuts=<..|-> restarts=<..|-> [faildumps=<..|->]
+// ops:  cfg thr=<n> [tz=<seconds east of UTC: time.Local of the process>] | known u=<enc> | rec ts= dur= tot= st= m= u= i= c= int= | run cuts=<..|-> restarts=<..|-> [faildumps=<..|->]
 //       (faildumps: the flush of the batch ending at that cut cannot write the state file — transient fault)
 // answer of `run`: full=<0|1> fail=<k> avg=<ok|off:..> ep <key> <count> <minS> <maxS> <st> ... ce <tag> <key> ... it <type> <ver> <tsS>
 //
@@ -406,6 +406,8 @@ func exec(c proto.Case, o *proto.Out) []string {
 		panic(err)
 	}
 	defer os.RemoveAll(dir)
+	time.Local = time.UTC
+	defer func() { time.Local = time.UTC }()
 	r := &runner{thr: 50, dir: dir}
 	var recs []common.AccessLog
 	converged, splits := false, map[string]bool{}
@@ -414,6 +416,18 @@ func exec(c proto.Case, o *proto.Out) []string {
 		switch w[0] {
 		case "cfg":
 			r.thr = int(kvI(w, "thr"))
+			if tz, ok := proto.KV(w, "tz"); ok {
+				// local time zone of the plugin process for this case (seconds east of UTC): the persisted
+				// timestamps are specified in UTC whatever the host's zone is, so the model ignores it
+				off, err := strconv.Atoi(tz)
+				if err != nil {
+					panic(err)
+				}
+				time.Local = time.FixedZone(fmt.Sprintf("verif%+d", off), off)
+				if off != 0 {
+					o.Count("case-with-non-utc-local-zone")
+				}
+			}
 			outs[i] = "ok"
 		case "known":
 			r.known = append(r.known, kvS(w, "u"))
